@@ -282,7 +282,53 @@ def annotation_tags_case(_=None):
   return n, n, viols, [dict(scenario='tags attached by annotation')]
 
 
+def diff_tags_case(_=None):
+  """Tags survive diff application: apply_diff(build_diff(old, new), copy of old) carries exactly the
+  tags of `new`, also when one argument gains or loses several tags in the same diff."""
+  from fiddle._src import diffing
+  viols = []
+  def bad(what, name):
+    viols.append(dict(what=what, sig='diff-tags', store=name, op='', config=name, difftags=True))
+  def tagmap(r):
+    return sorted((n, repr(k), tuple(sorted(t.__name__ for t in ts)))
+                  for n, b in enumerate(reachable_buildables(r))
+                  for k, ts in b.__argument_tags__.items() if ts)
+  def base():
+    return fdl.Config(pool.fk, fdl.Config(pool.fb, 1, 2), extra=3, sub=[fdl.Config(pool.fb, 4, 5)])
+  edits = {
+      'one argument gains two tags': lambda c: [fdl.add_tag(c.x, 'y', pool.TagA), fdl.add_tag(c.x, 'y', pool.TagB)],
+      'one argument gains three tags': lambda c: fdl.set_tags(c.x, 'x', [pool.TagA, pool.TagB, pool.TagA2]),
+      'a **kwargs argument gains two tags': lambda c: [fdl.add_tag(c, 'extra', pool.TagB), fdl.add_tag(c, 'extra', pool.TagA1)],
+      'nested in a list, two tags each on two arguments': lambda c: [fdl.set_tags(c.sub[0], 'x', [pool.TagA, pool.TagB]),
+                                                                     fdl.set_tags(c.sub[0], 'y', [pool.TagA1, pool.TagB])],
+      'tagged value with two tags replaces a value': lambda c: setattr(c.x, 'x', fdl.TaggedValue([pool.TagA, pool.TagB], default=7)),
+  }
+  n = 0
+  for name, edit in edits.items():
+    for direction in ('gain', 'lose'):
+      n += 1
+      old, new = base(), base()
+      edit(new if direction == 'gain' else old)
+      try:
+        diff = diffing.build_diff(old, new)
+        patched = copy.deepcopy(old)
+        diffing.apply_diff(diff, patched)
+      except Exception as e:   # pylint: disable=broad-except
+        bad(f'{name} ({direction}): build_diff/apply_diff raised {type(e).__name__}: {str(e)[:100]}', name)
+        continue
+      if tagmap(patched) != tagmap(new):
+        bad(f'{name} ({direction}): after apply_diff(build_diff(old, new), old) the tags are {tagmap(patched)}, '
+            f'those of new are {tagmap(new)}', name)
+      if sorted(t.__name__ for t in tagging.list_tags(patched)) != sorted(t.__name__ for t in tagging.list_tags(new)):
+        bad(f'{name} ({direction}): list_tags differs after diff application', name)
+  return n, n, viols, [dict(scenario='several tags added to / removed from one argument by one diff', cases=n)]
+
+
 def replay(case):
+  if case.get('difftags'):
+    r = diff_tags_case()
+    m = [v for v in r[2] if v['store'] == case.get('store')]
+    return m[0]['what'] if m else None
   if case.get('annotation'):
     r = annotation_tags_case()
     m = [v for v in r[2] if v['store'] == case.get('store')]
@@ -306,6 +352,7 @@ def run(tier='quick', seed=0, nproc=16):
   res += common.pmap(check_tag_ops, [(s.kinds, s.hasdef) for s in gen.all_sigs(2 if tier == 'quick' else 3)], nproc)
   res.append(common.guard(tagged_value_build))
   res.append(common.guard(annotation_tags_case))
+  res.append(common.guard(diff_tags_case))
   return common.merge(
       res, 'layerb.prop_C14',
       rule='pool configurations (tags on keyword, positional and **kwargs arguments, tag class '
